@@ -402,10 +402,13 @@ def _constant_suffix(prog, fn, e, depth=0):
         convs = list(re.finditer(r"%[-0 +#]*\d*(?:\.\d+)?([a-zA-Z%]+)", text))
         if any(c.group(1) not in ("d", "u", "x", "X", "i", "o", "c", "%") for c in convs):
             return None
-        longest = len(re.sub(r"%[-0 +#]*\d*(?:\.\d+)?[a-zA-Z%]+", "", text)) + 11 * len(convs)
-        m = re.search(r"\[(\d+)\]", e.get("t") or "")
-        if not m or longest + 1 > int(m.group(1)):
+        if is_n and not _format_fits(fn, call, e.get("d")):
             return None   # could be truncated: the end of the text is not certain
+        if not is_n:
+            longest = len(re.sub(r"%[-0 +#]*\d*(?:\.\d+)?[a-zA-Z%]+", "", text)) + 22 * len(convs)
+            m = re.search(r"\[(\d+)\]", e.get("t") or "")
+            if not m or longest + 1 > int(m.group(1)):
+                return None
         tail = text[convs[-1].end():] if convs else text
         return tail or None
     if k == "DeclRefExpr" and e.get("dk") in ("Var", "ParmVar"):
@@ -688,6 +691,38 @@ def _buffers_behind(prog, fn, e, depth=0, seen=None):
     return out
 
 
+def _format_fits(fn, call, d):
+    """snprintf(buf, n, "literal with %d/%u/%x/%c only", ...) whose longest possible output fits the array buf."""
+    import re
+    a = call_args(call)
+    fmt = strip_all(a[2]) if len(a) > 2 else None
+    if fmt is None or fmt.get("k") != "StringLiteral":
+        return False
+    text = fmt.get("s") or ""
+    convs = list(re.finditer(r"%[-0 +#]*(\d*)(?:\.\d+)?(l{0,2}|z|h{0,2})([a-zA-Z%])", text))
+    longest = len(re.sub(r"%[-0 +#]*\d*(?:\.\d+)?(?:l{0,2}|z|h{0,2})[a-zA-Z%]", "", text))
+    ai = 3
+    for c in convs:
+        if c.group(3) not in ("d", "u", "x", "X", "i", "o", "c", "%"):
+            return False
+        width = int(c.group(1)) if c.group(1) else 0
+        if c.group(3) == "%":
+            longest += 1
+            continue
+        aw = ((strip(a[ai]) or {}).get("w") or 64) if ai < len(a) else 64
+        ai += 1
+        digits = {"d": (aw * 3 + 9) // 10 + 1, "i": (aw * 3 + 9) // 10 + 1, "u": (aw * 3 + 9) // 10, "o": (aw + 2) // 3,
+                  "x": (aw + 3) // 4, "X": (aw + 3) // 4, "c": 1}[c.group(3)]
+        longest += max(width, digits)
+    size = None
+    for v in fn.walk():
+        if v.get("k") == "VarDecl" and v.get("d") == d:
+            m = re.search(r"\[(\d+)\]", v.get("t") or v.get("ct") or "")
+            if m:
+                size = int(m.group(1))
+    return size is not None and longest + 1 <= size
+
+
 def rule_bounded_names(prog, fixture=False):
     r = RuleResult("R-C12-5", "no output file name passes through a fixed-size character buffer that can cut it "
                    "short: a truncated path names a different file (in an ancestor of the destination); a bounded "
@@ -713,6 +748,8 @@ def rule_bounded_names(prog, fixture=False):
                     and not (p_.get("k") == "BinaryOperator" and p_.get("op") == ",")
                 if base in ("snprintf", "vsnprintf", "strlcpy", "strlcat") and used:
                     continue
+                if base == "snprintf" and _format_fits(bf, c, d):
+                    continue        # every conversion is of bounded width and the whole text fits the buffer
                 probs.append("%s: %s() fills the %s `%s` and its result is not examined" % (bf.loc(c), base,
                              (bf.node_by_decl(d) or {}).get("t", "buffer") if hasattr(bf, "node_by_decl") else "buffer", nm))
         r.add(key, fn.loc(n), not probs,
